@@ -17,8 +17,16 @@ def _theorem_ok(res, name):
     return any(o["ok"] and o["name"].endswith("." + name) for o in res.obligations if o["name"].startswith("theorem "))
 
 
-def _run_spec(work, name, ops, timeout):
-    """ops on the real code, the Lean driver in spec mode as oracle -> (trace, verdict) or None."""
+def _wrap64(x):
+    """two's-complement int64 of a mathematical integer (Go's wrap-around multiplication)"""
+    x &= (1 << 64) - 1
+    return x - (1 << 64) if x >= 1 << 63 else x
+
+
+def _run_spec(work, name, ops, timeout, model=False):
+    """ops on the real code, the Lean driver in spec mode as oracle -> (trace, verdict) or None.
+    With model=True a third component is returned: the verdict of the driver in model mode (None when the
+    white-box hook is not available)."""
     binp, _ = work.build("retry")
     drv = steps.driver_path()
     if binp is None or drv is None:
@@ -37,7 +45,16 @@ def _run_spec(work, name, ops, timeout):
         return None
     with open(tr) as fin, open(vd, "w") as fout:
         subprocess.run([drv, "spec", "retry"], stdin=fin, stdout=fout, stderr=subprocess.PIPE, text=True, timeout=timeout)
-    return [l.rstrip("\n") for l in open(tr)], [l.rstrip("\n") for l in open(vd)]
+    trace, verdict = [l.rstrip("\n") for l in open(tr)], [l.rstrip("\n") for l in open(vd)]
+    if not model:
+        return trace, verdict
+    mverdict = None
+    if not getattr(work, "blackbox", False):
+        md = os.path.join(d, "verdict-model.txt")
+        with open(tr) as fin, open(md, "w") as fout:
+            subprocess.run([drv, "model", "retry"], stdin=fin, stdout=fout, stderr=subprocess.PIPE, text=True, timeout=timeout)
+        mverdict = [l.rstrip("\n") for l in open(md)]
+    return trace, verdict, mverdict
 
 
 def _by_theorem(res, sig, fid, theorem, history):
@@ -53,10 +70,10 @@ def known_findings(work, res, tier, proofs_ok):
     only after the record has been checked to be exactly that history."""
     # ---- C19-R: stale flag, three concurrent callers
     r_ops = R_OPS + ["race3 %d" % (200000 if tier == "quick" else 5000000)]
-    got = _run_spec(work, "stale-flag", r_ops, 600)
+    got = _run_spec(work, "stale-flag", r_ops, 600, model=True)
     reproduced = False
     if got:
-        trace, verdict = got
+        trace, verdict, mverdict = got
         bad = [i for i, v in enumerate(verdict) if not v.startswith("ok")]
         if bad:
             i = bad[0]
@@ -68,7 +85,15 @@ def known_findings(work, res, tier, proofs_ok):
                 iv = int(f.get("bad", "x"))
             except ValueError:
                 iv = None
-            if i == 1 and trace[i].startswith("race3 ") and iv is not None and 0 < iv < initial and initial * initial > 2 ** 63:
+            # exactly the recorded history: the ONLY out-of-bounds value three callers of a fresh strategy can obtain
+            # through the stale flag is the wrapped product of call 3 (call 1 returns initial, the product of call 2
+            # is negative = a cap hit); any other value (zero, negative, above max, another positive value below
+            # initial) or a trial with a denied call (unlimited budget) is a different defect.  Where the white-box model is available it must
+            # accept the very same trace (the model predicts the value); the constructor line must be clean too.
+            want = _wrap64(initial * 4)
+            model_ok = mverdict is None or (len(mverdict) == len(trace) and all(v.startswith("ok") for v in mverdict))
+            if (i == 1 and len(trace) == 2 and trace[i].startswith("race3 ") and iv is not None and iv == want
+                    and 0 < want < initial and initial * initial > 2 ** 63 and f.get("gmin") == "3" and f.get("gmax") == "3" and model_ok):
                 rec["finding_signature"] = "%s (initial=%d, interval=%d, trial %s)" % (R_SIG, initial, iv, f.get("trials"))
                 reproduced = True
             res.violation("three concurrent Next callers obtained an interval below the initial interval: " + verdict[i], rec)
@@ -87,7 +112,9 @@ def known_findings(work, res, tier, proofs_ok):
                 rec = {"harness": "retry", "area": "retry", "mode": "spec", "ops": W_OPS, "trace": trace, "verdict": verdict,
                        "first_message": verdict[i], "seed": res.seed}
                 calls_before = sum(int(o.split()[1]) if o.startswith("burn ") else 1 for o in W_OPS[1:i])
-                if trace[i].startswith("next => ok:") and calls_before + 1 >= 2 ** 31:
+                # exactly the recorded history: the burn line was accepted (exactly one of the first 2^31-1 calls
+                # granted) and call 2^31 is granted again with the strategy's own interval
+                if i == 2 and len(trace) == 3 and trace[i].startswith("next => ok:1 ") and calls_before + 1 == 2 ** 31:
                     rec["finding_signature"] = "%s (calls=%d, maxRetries=1): call %d granted" % (W_SIG, calls_before + 1, calls_before + 1)
                 res.violation("a Next call beyond the budget was granted: " + verdict[i], rec)
             elif proofs_ok and _theorem_ok(res, "c19_counter_wrap_witness"):
